@@ -6,8 +6,11 @@
 // Marshal error => value outside the documented domain; else strict Unmarshal
 // consumes all bytes and yields an equal value (modulo the statement's
 // equivalences) and Marshal(decoded) reproduces the bytes; the bytes are checked
-// by an independent DER walker. Go's standard encoding/asn1 is run on the same
-// bytes/values as a cross-check (observations, never verdicts).
+// by an independent DER walker (walker.go: well-formedness; typed.go: the element
+// each component must be, identifier and content octets computed by the harness
+// from the field options and the value). Go's standard encoding/asn1 is run on the
+// same bytes/values: for values inside the domain its Marshal must give the same
+// bytes and its Unmarshal the same value (verdicts, two pinned exceptions).
 package main
 
 import (
@@ -250,7 +253,7 @@ func report(c *ev.Ctx, t *tnode, vn *vnode, r result) {
 	w := witness{Type: toJSON(st), Value: copyV(sv), GoType: goType(st), GoValue: vlabel(st, sv),
 		Bytes: hex.EncodeToString(sr.bytes), Detail: sr.detail}
 	if sr.bytes != nil {
-		w.Stdlib = crossCheck(st, sv, sr.bytes, canon(mkval(st, sv, flZ), false))
+		w.Stdlib, _ = crossCheck(st, sv, sr.bytes, canon(mkval(st, sv, flZ), false), false, true)
 	}
 	if describe(st) != describe(t) {
 		w.FoundIn, w.FoundVal = goType(t), vlabel(t, vn)
@@ -290,14 +293,15 @@ func main() {
 	initOpts()
 	initLeaves()
 	ev.Main("C18", "model_checking", func(c *ev.Ctx) {
-		c.Rule("types = reflect.StructOf over (kind x option) field specs passing the documented-domain predicate: all 1- and 2-field structs, 3-field structs over a reduced grid, struct-in-struct and slice-of-struct over every 1-field inner type; values = full product of per-kind alphabets (<=2 fields), <=2 deviations from a baseline (3 fields); a case is non-trivial when Marshal succeeded, no documented limitation applied and the encoding is not the empty SEQUENCE")
+		c.Rule("types = reflect.StructOf over (kind x option) field specs passing the documented-domain predicate: all 1- and 2-field structs, 3-field structs over a reduced grid, struct-in-struct and slice-of-struct over every 1-field inner type; values = full product of per-kind alphabets (<=2 fields), <=2 deviations from a baseline (3 fields); a case is non-trivial when Marshal succeeded, no documented limitation applied and the encoding is not the empty SEQUENCE. Verdicts per case: Marshal succeeds on the domain; its output is well-formed DER (walker), IS the encoding of the value under the declared type (typed walker: class, tag number, constructed bit and content octets of every component, EXPLICIT wrappers and IMPLICIT-tagged contents included, expected identifier computed by the harness from the field options) and equals Go's encoding/asn1.Marshal of the same value/type byte for byte; strict Unmarshal consumes everything and yields an equal value; re-Marshal reproduces the bytes; Go's encoding/asn1.Unmarshal reads the bytes as the same value")
 		c.Assume(
 			"asn1.AllowPermissiveParsing=false for the whole process",
 			"domain predicate (domain.go): RawValue only with ''/optional; Flag only on optional fields; set on structs/slices; omitempty on slices; default only with optional on integers; string/time type options on strings/times",
 			"types whose OPTIONAL field shares a possible tag with a following field (up to the next mandatory one) are inherently ambiguous, excluded and counted; a Go string may carry any character-string tag, time.Time UTCTime|GeneralizedTime, RawValue any tag",
 			"limitations exempt from the round trip (still must not panic): IMPLICIT tag on a Go type that stands for a CHOICE when the options do not fix the alternative (string without string-type option holding non-PrintableString characters: documented; time.Time without 'generalized' whose year needs GeneralizedTime: same reason); omitempty without optional on an empty slice; OPTIONAL struct equal to zero only up to nil==empty; strings that are not valid UTF-8; inconsistent BitString / RawValue; OID arcs or Enumerated beyond int32; time zone offsets with seconds",
 			"equalities: SET OF up to order, times as instants truncated to the second, nil==empty slices, absent OPTIONAL==zero value, RawValue by the element it denotes",
-			"the standard library cross-check and the comparison with its Marshal output are reported as observations only",
+			"typed walker (typed.go): where the documentation leaves a choice every alternative is accepted: a string without string-type option may be UTF8String or any of Printable/IA5/NumericString whose repertoire holds the value, time.Time without option UTCTime (1950..2049) or GeneralizedTime, a component that equals its zero value/DEFAULT (OPTIONAL) or is an empty omitempty slice may be absent or present",
+			"Go's encoding/asn1 (the version this binary is built with) as a second oracle for values inside the domain: Marshal must give identical bytes (the fork documents no deliberate Marshal difference; 0 differences on the unchanged tree); Unmarshal must return the same value, except the two rejection classes where the fork is deliberately more capable than the standard library (repaired defects da54108 / 5a1db0a, still present upstream): 'explicitly tagged member didn't match' on types with an EXPLICIT PRIVATE tag, 'explicit tag has no child' on types with an OPTIONAL EXPLICIT component; outside the domain both comparisons stay observations",
 		)
 
 		if c.Replay != nil {
